@@ -1328,6 +1328,60 @@ def r1219(ctx):
         ctx.bad(rid, f, f"add_to_path reports success on {sorted(k[0] for k in sides)} only: a frame beyond the other interface does not end the propagation", construct="add_to_path: one-sided stop")
 
 
+def r1220(ctx):
+    """GROMACS: the on-the-fly reader opens <name>.trr / <name>.edr as soon as they exist, so files
+    of that name left over by a crashed run must be gone before mdrun starts. The list handed to
+    _remove_files is computed from the table of output files only after the names the reader
+    waits for (trr, edr) were entered into that table."""
+    rid = "R-12.20"
+    f = next((g for m, q, g in ctx.tree.all_funcs([GROMACS]) if q.endswith("GromacsEngine._propagate_from")), None)
+    if f is None:
+        raise AnalysisError("R-12.20: GromacsEngine._propagate_from not found")
+    fl = flow_of(f)
+    cfg = fl.cfg
+    rm = [c for c in walk_local(f) if isinstance(c, ast.Call) and is_self_attr(c.func, "_remove_files") and len(c.args) >= 2]
+    runners = [x for x in walk_local(f) if isinstance(x, ast.Call) and last_name(x) == "GromacsRunner"]
+    if not runners:
+        raise AnalysisError("R-12.20: GromacsEngine._propagate_from does not start a GromacsRunner (cannot decide)")
+    rn = cfg.node_of(runners[0])
+    rm = [c for c in rm if cfg.node_of(c).id != rn.id and cfg.reaches(cfg.node_of(c), rn)]
+    if not rm:
+        ctx.bad(rid, f, "GromacsEngine._propagate_from no longer removes left-over output files before mdrun: the reader starts on a stale .trr", construct="no _remove_files before mdrun")
+        return
+    for c in rm:
+        lst = c.args[1]
+        at = cfg.node_of(c)
+        if isinstance(lst, ast.Name):
+            lst, at = deref(fl, lst, at)
+        tables = {x.func.value.id for x in ast.walk(lst) if isinstance(x, ast.Call) and isinstance(x.func, ast.Attribute) and x.func.attr in ("items", "values", "keys") and isinstance(x.func.value, ast.Name)}
+        tables |= {x.value.id for x in ast.walk(lst) if isinstance(x, ast.Subscript) and isinstance(x.value, ast.Name)}
+        if len(tables) != 1:
+            raise AnalysisError(f"R-12.20: the list of files to remove `{short(lst, 50)}` is not computed from one table of output files (cannot decide)")
+        tab = next(iter(tables))
+        # keys excluded by the comprehension's filter
+        excluded = {k.value for x in ast.walk(lst) if isinstance(x, ast.Compare) and len(x.ops) == 1 and isinstance(x.ops[0], (ast.NotEq, ast.NotIn)) for k in ast.walk(x) if isinstance(k, ast.Constant) and isinstance(k.value, str)}
+        for key in ("trr", "edr"):
+            if key in excluded:
+                ctx.bad(rid, c, f"the left-over `{key}` file is excluded from the files removed before mdrun: the reader starts on the stale file of a crashed run", construct=f"remove list excludes {key}")
+                continue
+            stores = []
+            for st in walk_local(f):
+                if isinstance(st, ast.Assign) and len(st.targets) == 1 and isinstance(st.targets[0], ast.Subscript) and isinstance(st.targets[0].value, ast.Name) and st.targets[0].value.id == tab:
+                    sl = st.targets[0].slice
+                    if isinstance(sl, ast.Constant) and sl.value == key:
+                        stores.append(cfg.node_of(st))
+                    elif isinstance(sl, ast.Name):
+                        L = next((p for p in loops_of(st) if isinstance(p, ast.For) and isinstance(p.target, ast.Name) and p.target.id == sl.id and isinstance(p.iter, (ast.Tuple, ast.List)) and any(isinstance(e, ast.Constant) and e.value == key for e in p.iter.elts)), None)
+                        if L is not None:
+                            stores.append(cfg.node_of(L))
+            if not stores:
+                raise AnalysisError(f"R-12.20: no store of {tab}[{key!r}] found in GromacsEngine._propagate_from (cannot decide)")
+            if any(cfg.dominates(sn, at) and sn.id != at.id for sn in stores):
+                ctx.ok(rid, c, f"the files removed before mdrun are listed after {tab}[{key!r}] was entered: a left-over .{key} is deleted")
+            else:
+                ctx.bad(rid, c, f"the list of files removed before mdrun (`{short(lst, 50)}`) is computed before {tab}[{key!r}] is entered into the table: a `<name>.{key}` left by a crashed run with the same pid / counter is not deleted, GromacsRunner opens it at once and streams the old run's frames - wrong first frame, length, end point and success flag", construct=f"remove list computed before {tab}[{key!r}] is known")
+
+
 def run(ctx):
     ctx.rule("R-12.9", "polling loops read the trajectory once more after the external program was observed finished (abstract interpretation over the loop's counter and the process state)", floor=2)
     ctx.rule("R-12.1", "every frame goes through add_to_path; stop tested before any further append; true edge ends all frame loops; returned success is add_to_path's", floor=5)
@@ -1339,6 +1393,8 @@ def run(ctx):
     ctx.rule("R-12.7", "every sleeping wait loop observes the external process", floor=6)
     ctx.rule("R-12.8", "frames handed to the engines by the on-the-fly readers do not share arrays (a frame's box and coordinates are its own)", floor=3)
     ctx.rule("R-12.15", "the configuration an engine starts from after a velocity reversal is the phase point itself: _reverse_velocities writes positions, box and identities exactly as read (shared with C19 R-19.5)", floor=5)
+    ctx.rule("R-12.20", "GROMACS: left-over .trr / .edr of the coming run's name are removed before mdrun starts (the remove list is computed after those names are in the output-file table)", floor=2)
+    ctx.attempt(r1220, ctx)
     ctx.rule("R-12.19", "the shared stop rule reports success exactly for a frame strictly outside the interfaces (order < left, order > right), once per side", floor=2)
     ctx.attempt(r1219, ctx)
     ctx.rule("R-12.14", "step budget: every engine runs path.maxlen * subcycles MD steps (sibling agreement, monomial form)", floor=5)
@@ -1391,6 +1447,8 @@ def run(ctx):
 
 
 VARIANTS = [
+    B("c12-gromacs-remove-list-before-names", GROMACS, '        for key in ("cpt", "edr", "log", "trr"):\n            out_files[key] = f"{name}.{key}"\n        # Remove some of these files if present (e.g. left over from a\n        # crashed simulation). This is so that GromacsRunner will not\n        # start reading a .trr left from a previous simulation.\n\n        remove = [val for key, val in out_files.items() if key != "tpr"]\n', '        remove = [val for key, val in out_files.items() if key != "tpr"]\n        for key in ("cpt", "edr", "log", "trr"):\n            out_files[key] = f"{name}.{key}"\n', "R-12.20", control=True, why="seeded C12_k"),
+    B("c12-gromacs-stale-trr-kept", GROMACS, '        remove = [val for key, val in out_files.items() if key != "tpr"]\n', '        remove = [val for key, val in out_files.items() if key not in ("tpr", "trr")]\n', "R-12.20"),
     K("c12-keep-stop-tests-on-a-local", ENGBASE, "        if path.phasepoints[-1].order[0] < left:\n", "        last_order = path.phasepoints[-1].order[0]\n        if left > last_order:\n"),
     B("c12-stop-on-the-left-interface", ENGBASE, "        if path.phasepoints[-1].order[0] < left:", "        if path.phasepoints[-1].order[0] <= left:", "R-12.19", control=True, why="seeded C12_j"),
     B("c12-stop-on-the-right-interface", ENGBASE, "        elif path.phasepoints[-1].order[0] > right:", "        elif path.phasepoints[-1].order[0] >= right:", "R-12.19"),
